@@ -165,8 +165,9 @@ def gen_cfg(rng, defined):
 
 
 def t_vol(t):
-    """a tree node is [count, has measurements, waveform index | None, children (, count is volatile)]"""
-    return len(t) > 4 and bool(t[4])
+    """a tree node is [count, has measurements, waveform index | None, children (, volatile)]; volatile = True (a
+    volatile parameter of its own, numbered in DFS order when printed) or the integer id of its VolatileProperty"""
+    return len(t) > 4 and t[4] is not None and t[4] is not False
 
 
 def gen_tree(rng, depth, nwf, top=True, pvol=0.0):
@@ -348,6 +349,15 @@ def gen_cases(rng, tier, ctx):
         [2, False, None, [[2, False, 0, [], V], [3, False, 1, [], V]]],
         # a node with measurements over a single child whose count is a volatile 1 cannot be merged (is unrolled)
         [1, False, None, [[2, True, None, [[1, False, None, [[1, False, 0, []], [1, False, 1, []]], V]]], [1, False, 1, []]]],
+        # the key of sequencer_tables contains the entries' volatile properties: equal entries, different properties ->
+        # distinct tables; unrolled copies (same property) -> one table; merged leaves carry scaled properties
+        [1, False, None, [[1, False, None, [[1, False, 0, [], V]]], [1, False, None, [[1, False, 0, []]]],
+                          [1, False, None, [[1, False, 0, [], V]]]]],
+        [1, False, None, [[2, True, None, [[1, False, None, [[1, False, 0, [], V], [1, False, 1, []]]],
+                                           [1, False, None, [[1, False, 1, []], [1, False, 0, []]]]]]]],
+        [1, False, None, [[1, False, None, [[2, False, None, [[3, False, 0, [], V]]],
+                                            [1, False, None, [[1, False, None, [[1, False, 1, []], [1, False, 1, []]]]]]]],
+                          [1, False, None, [[6, False, 0, [], V]]], [1, False, None, [[6, False, 0, []]]]]],
         # merging a volatile parent / child count makes the merged count volatile
         [1, False, None, [[2, False, None, [[1, False, None, [[1, False, 0, []]]]], V], [1, False, None, [[1, False, None, [[1, False, 1, []]], V]]]]],
     ]
@@ -493,9 +503,10 @@ def build_pt(tree, templates, order, params=None):
     return repeat(body)
 
 
-def read_tree(loop, order_iter):
-    ch = [read_tree(c, order_iter) for c in loop]
-    vol = [True] if loop.volatile_repetition is not None else []
+def read_tree(loop, order_iter, vol_ids):
+    vp = loop.volatile_repetition
+    vol = [vol_ids.setdefault(vp, 1000 + len(vol_ids))] if vp is not None else []   # before the children: DFS order
+    ch = [read_tree(c, order_iter, vol_ids) for c in loop]
     if ch:
         return [int(loop.repetition_count), bool(loop._measurements), None, ch] + vol
     return [int(loop.repetition_count), bool(loop._measurements), next(order_iter), []] + vol
@@ -551,7 +562,7 @@ def _run_impl(case):
         lv = list(leaves(prog))
         if len(lv) != len(order):
             return {'crash': 'harness: template read-back mismatch (%d leaves for %d atoms)' % (len(lv), len(order))}
-        tree = read_tree(prog, iter(order))
+        tree = read_tree(prog, iter(order), {})
         for leaf, w in zip(lv, order):
             if vlib.to_fraction(leaf.waveform.duration) * rate != F(case['wfs'][w]['len']):
                 return {'crash': 'harness: template read-back mismatch (leaf duration)'}
@@ -675,10 +686,17 @@ def _run_impl(case):
 # ---------------------------------------------------------------------------------------------------------------------
 # Gallina printers
 
-def g_tree(t):
+def g_tree(t, counter=None):
+    counter = [0] if counter is None else counter
     rep, meas, w, ch = t[:4]
-    meta = 'plain' if not (meas or t_vol(t)) else '(Build_nmeta %s %s)' % (gbool(meas), gbool(t_vol(t)))
-    return '(Loop %s %s %s %s)' % (gZ(rep), meta, 'None' if w is None else '(Some %d%%nat)' % w, glist(g_tree, ch))
+    if t_vol(t):
+        counter[0] += 1
+        vid = counter[0] if t[4] is True else int(t[4])
+        meta = '(Build_nmeta %s (Some (VId 1 %s)))' % (gbool(meas), gZ(vid))
+    else:
+        meta = 'plain' if not meas else '(Build_nmeta true None)'
+    return '(Loop %s %s %s %s)' % (gZ(rep), meta, 'None' if w is None else '(Some %d%%nat)' % w,
+                                   glist(lambda c: g_tree(c, counter), ch))
 
 
 def g_chan(c):
@@ -906,8 +924,10 @@ MANIFEST = {
                   'restructuring (flatten_and_balance(2) + prepare preserve the played leaf sequence), index '
                   'invariants of the three setdefault de-duplications (waveforms, sequencer tables, segments), segment '
                   'packing, half-rate lemma.  Termination: prepare with an explicit measure, flatten_and_balance by an '
-                  'existence proof + fuel monotonicity; C16_plays_total: with enough fuel the model result is '
-                  'fuel-independent and never the fuel error.  Limits: every emitted segment >= 192, multiple of 16; '
+                  'existence proof + fuel monotonicity AND an explicit fuel bound (weighted size of the unrolled tree); '
+                  'C16_plays_total: with enough fuel the model result is fuel-independent and never the fuel error.  '
+                  'C16_no_crash: for counts >= 1 the model never fails with an unexpected exception type (guard sharp: '
+                  'zero-count witness = known finding).  Limits: every emitted segment >= 192, multiple of 16; '
                   'every table <= max_seq_len in both modes; >= min_seq_len in advanced mode (single mode refuted by '
                   'witness = known finding, intended behaviour).  Tie to /repo: exact correspondence check (segments '
                   'as uploaded binary, tables, mode, accept/reject) and the specification evaluated by Coq on the '
@@ -915,9 +935,9 @@ MANIFEST = {
     'level_note': 'Trusted: Coq kernel, harness, numpy float exactness on dyadic inputs, Waveform equality classes and '
                   'get_sampled (inputs of the model / compared through the spec; hypothesis of C16_plays: equal class '
                   '=> equal data, exact sample counts), affine voltage transformations only; volatile counts are a '
-                  'flag + current value (updates are C15); flatten_and_balance termination has no explicit bound, so '
-                  'the fixed fuel (4000) of `compile` is covered by the correspondence check only; the instrument '
-                  'driver is not importable and not covered.',
+                  'flag + current value (updates are C15); the fixed fuel (4000) of `compile` is covered by '
+                  'C16_compile_fuel_explicit only under its two explicit bounds (otherwise by the correspondence '
+                  'check); the instrument driver is not importable and not covered.',
     'technique': 'Coq proof (translation validation of an executable compiler model, invariants over the parse folds, '
                  'termination) + correspondence check + PlottableProgram replay oracle',
     'design_ref': 'DESIGN.md §5 C16',
